@@ -17,6 +17,7 @@ Scalars: mode `q` = `Rat` written `p/q`, mode `f` = `Float` written as 16 hex di
   marg  <mode> S K n N | <taxa…> | <tokens…> | <π> | <props> | <mats> | <tips n·N·S>
   pat   <size> <aa 0/1> <useAmb 0/1> | <taxa…> | <name=SEQ …>   -> patterns, weights, tip vectors, tip states
   sym   <aa 0/1> <useAmb 0/1> <ord>                 -> tip vector and tip state of one character
+  jc69  <t hex>                                     -> the 16 entries of the JC69 matrix in closed form (Float)
 -/
 open TT TT.Proto TT.C01
 
@@ -239,6 +240,12 @@ def handle (line : String) : String :=
       if m = "q" then doMarg (α := Rat) s k n nn rest
       else if m = "f" then doMarg (α := Float) s k n nn rest else "bad-op"
     | _, _, _, _ => "bad-op"
+  | [["jc69", t]] =>
+    match parseFloatBits t with
+    | some d =>
+      let m := jc69P (α := Float) Nat.toFloat d
+      "ok " ++ " ".intercalate ((List.finRange 4).flatMap fun s => (List.finRange 4).map fun j => floatBits (m s j))
+    | none => "bad-op"
   | ["pat", size, aa, ua] :: rest =>
     match size.toNat?, parseBool aa, parseBool ua with
     | some size, some aa, some ua => doPat size aa ua rest
